@@ -211,7 +211,7 @@ impl Property for C12Prop {
             complex_numbers: true,
         };
         let e = gx::expr(src, &cfg);
-        out.set_key(&e);
+        out.key = gx::structural_hash(&e);
         classify(&e, out);
         if ctx.render {
             out.render = Some(e.to_quil_or_debug());
